@@ -77,6 +77,10 @@ def anchors(A):
     # --- key in name mode
     meth('key/name-mode', 'Config', 'get_name_for_persistence')
     meth('key/task-name_for_persistence', 'Task', 'name_for_persistence')
+    # name-mode identifiers of a config (registry key of name-mode tasks, file names in name mode)
+    meth('key/config-name', 'Config', 'name')
+    meth('key/config-repr-name', 'Config', 'repr_name')
+    meth('key/config-repr-name-without-namespace', 'Config', 'repr_name_without_namespace')
     # --- directory
     meth('dir/task-path', 'Task', 'path')
     meth('dir/slugname', 'Task', 'slugname', kind='cls')
